@@ -41,14 +41,12 @@ class EidField(CborField):
             raise ValueError('No type code for scheme "{}"'.format(parts[0]))
 
         if scheme_type == EidField.TypeCode.dtn:
-            authority = parts[1]
-            path = parts[2]
-            ssp = ''
-            if authority:
-                ssp += '//' + authority
-                if not path.startswith('/'):
-                    path = '/' + path
-            ssp += path
+            # The scheme-specific part is kept as it is,
+            # including any "?" or "#" within the demux
+            ssp = x[len(parts[0]) + 1:]
+            if ssp.startswith('//') and '/' not in ssp[2:]:
+                # a node name without its delimiter
+                ssp += '/'
 
             return [scheme_type, ssp]
 
